@@ -81,6 +81,12 @@ check("C04", "exploration",
   "Alphabets of 5-6 values per type; lengths beyond 1025 and dictionaries' own insert/lookup kernels are exercised through C01/C03 (DictFixed type, 600-row batches), not here; GOEXPERIMENT=simd build not included.",
   "DESIGN.md §2 C04")
 
+check("C11", "exploration",
+  "bounded exhaustive enumeration of source row-group kind x source writer configuration x destination writer configuration x buffered-rows history on the real WriteRowGroup, with a differential oracle against the row-by-row path under the same destination configuration, the wrapper's expected row semantics, and the independent decoder",
+  "10 source kinds (file row group, MultiRowGroup, buffer, merges of disjoint / overlapping / deduplicated inputs, identity and column-changing ConvertRowGroup, a foreign RowGroup implementation whose Rows() filters, a row with a 1500-element list) crossed with source and destination configurations from a reduced lattice (codec, encoding, page version, statistics, bloom filter size, MaxRowsPerRowGroup 5/14, dictionary limit, page size) within 3 (quick) / 4 (thorough) deviations, with and without rows already buffered in the destination. Output rows must equal the row path's and the wrapper's semantics; the file must pass pqref; no row group may exceed the limit; every (codec, page type+encoding, page statistics, bloom filter) fact of the output must also be produced by the row path under the same destination options. Verif-tagged accessors to the path counters prove that the verbatim-copy, re-encode and row paths are all exercised (counters in evidence).",
+  "Hook: zz_verif_paths.go (build tag verif, injected by overlay) exposes the unexported path counters. Page boundaries and row-group partitioning below the maximum are not compared; the return value of WriteRowGroup is not specified by the property and not checked.",
+  "DESIGN.md §2 C11")
+
 NOT_YET = "check not built yet in this round (design in DESIGN.md §2); not claimed until its check exists"
 
 m = {
